@@ -47,6 +47,13 @@ inline void set_dims(MArr& a, int D, int const* n) {
 	a.D = D;
 	for(int i = 0; i < MAXD; ++i) a.n[i] = i < D ? n[i] : 0;
 }
+// a shape such as (0,4,2): empty, and the library reports it as requested (a zero in a later position collapses all sizes)
+inline bool regular_empty(MArr const& a) {
+	if(a.D < 1 || a.n[0] != 0) return false;
+	for(int k = 1; k < a.D; ++k)
+		if(a.n[k] < 1) return false;
+	return true;
+}
 inline MArr make_empty(int D, int arena) {
 	MArr a;
 	a.alive = true;
@@ -116,6 +123,7 @@ inline bool plan_effect(Model const& M, ModelTraits const& T, Op const& op, Effe
 		e.next[k] = M.at(D, i);
 		if(e.next[k].moved_from && e.probe_id < 0 && k == 0) e.probe_id = P_ASSIGN_TO_MOVED_FROM;
 		e.next[k].moved_from = false;
+		e.next[k].exact_empty = false;
 		if(e.nt < k + 1) e.nt = k + 1;
 		return e.next[k];
 	};
@@ -162,6 +170,7 @@ inline bool plan_effect(Model const& M, ModelTraits const& T, Op const& op, Effe
 				var("alloc");
 			}
 			e.elems = a.count();
+			a.exact_empty = regular_empty(a);
 			break;
 		}
 		case O_CTOR_COPY: case O_CTOR_COPY_ALLOC: {
@@ -170,6 +179,7 @@ inline bool plan_effect(Model const& M, ModelTraits const& T, Op const& op, Effe
 			set_dims(a, D, b.n);
 			a.v     = b.v;
 			a.arena = op.kind == O_CTOR_COPY ? ((T.soccc_default && D != 0) ? 0 : b.arena) : op.ar;
+			a.exact_empty = b.exact_empty;  // "extents ... equal the source's", also for an empty source
 			e.elems = b.count();
 			if(a.arena != b.arena) var("other-arena");
 			break;
@@ -181,6 +191,7 @@ inline bool plan_effect(Model const& M, ModelTraits const& T, Op const& op, Effe
 			set_dims(a, D, b.n);
 			a.v     = b.v;
 			a.arena = op.kind == O_CTOR_MOVE ? b.arena : op.ar;
+			if(a.arena == b.arena) a.exact_empty = b.exact_empty;  // the layout travels with the storage
 			if(T.static_arrays) {  // a static_array cannot give its storage away: new storage, elements moved one by one
 				MArr& bs = tgt(1, D, op.b);
 				if(!T.trivial) bs.v.assign(bs.v.size(), -7777);
@@ -205,8 +216,7 @@ inline bool plan_effect(Model const& M, ModelTraits const& T, Op const& op, Effe
 			if(a.arena == b.arena) {
 				e.expect_no_alloc = e.expect_no_elem_copies = true;  // "transfers the value without copying elements", "do not allocate"
 			} else {
-				var("other-arena");
-				e.unspecified[1] = true;
+				var("other-arena");  // the elements are moved into storage of the new array's allocator; the source is emptied all the same
 			}
 			break;
 		}
@@ -312,6 +322,7 @@ inline bool plan_effect(Model const& M, ModelTraits const& T, Op const& op, Effe
 		if(op.kind == O_ASSIGN_COPY) {
 			set_dims(a, D, b0.n);
 			a.v = b0.v;
+			a.exact_empty = b0.exact_empty;
 			if(T.pocca) a.arena = b0.arena;
 			if(same && a0.count() > 0 && !(T.pocca && a0.arena != b0.arena)) e.expect_no_alloc = e.expect_base_unchanged = true;
 			e.probe_id = (a0.arena != b0.arena && same && a0.count() > 0) ? P_COPY_OTHER_ARENA : same ? P_ASSIGN_SAME_EXT : a0.count() == 0 ? P_ASSIGN_FROM_EMPTY : b0.count() == 0 ? P_ASSIGN_TO_EMPTY : P_ASSIGN_DIFF_EXT;
@@ -327,6 +338,7 @@ inline bool plan_effect(Model const& M, ModelTraits const& T, Op const& op, Effe
 			set_dims(a, D, b0.n);
 			a.v = b0.v;
 			if(T.pocma) a.arena = b0.arena;
+			if(T.pocma || a0.arena == b0.arena) a.exact_empty = b0.exact_empty;  // the layout travels with the storage
 			MArr& b = tgt(1, D, op.b);
 			int   z[MAXD]{};
 			set_dims(b, D, z);
@@ -335,8 +347,7 @@ inline bool plan_effect(Model const& M, ModelTraits const& T, Op const& op, Effe
 			if(T.pocma || a0.arena == b0.arena) {
 				e.expect_no_elem_copies = true;  // the old elements of the target are destroyed and its block released; nothing is copied
 			} else {
-				e.unspecified[1] = true;
-				e.probe_id       = P_MOVE_ASSIGN_UNEQUAL_ALLOC;
+				e.probe_id       = P_MOVE_ASSIGN_UNEQUAL_ALLOC;  // elements moved one by one into own storage; "leaves the source empty yet valid" all the same
 			}
 		} else {
 			if(T.static_arrays && !same) return false;
@@ -344,6 +355,8 @@ inline bool plan_effect(Model const& M, ModelTraits const& T, Op const& op, Effe
 			if(op.var < 0 || op.var > 1) return false;
 			MArr& b = tgt(1, D, op.b);
 			std::swap(a, b);
+			a.exact_empty = b0.exact_empty;
+			b.exact_empty = a0.exact_empty;
 			if(!T.pocs) std::swap(a.arena, b.arena);  // allocators stay
 			e.expect_no_alloc = true;  // "swap ... of resizable arrays do not allocate"; how the values are exchanged is not prescribed
 			if(a0.arena != b0.arena) e.probe_id = P_SWAP_OTHER_ARENA;
@@ -356,6 +369,7 @@ inline bool plan_effect(Model const& M, ModelTraits const& T, Op const& op, Effe
 		if(op.var < 0 || op.var > 1) return false;
 		if(T.static_arrays && op.var == 1) return false;
 		MArr& a = tgt(0, D, op.a);
+		a.exact_empty = M.at(D, op.a).exact_empty;
 		e.elems = a.count();
 		e.expect_no_alloc = e.expect_base_unchanged = true;
 		e.expect_no_elem_events = true;
@@ -494,6 +508,7 @@ inline bool plan_effect(Model const& M, ModelTraits const& T, Op const& op, Effe
 		if(reindexed) { var("reindexed"); e.probe_id = -1; }
 		i64 const fillv = op.kind == O_REEXTENT_FILL ? op.v : fresh_or_zero;
 		set_dims(a, D, op.x);
+		a.exact_empty = regular_empty(a);  // "after reextent(x) the array has extents x"
 		a.v.assign(static_cast<std::size_t>(newc), fillv);
 		if(op.kind != O_REEXTENT_MOVE && a0.count() > 0 && newc > 0) {
 			int idx[MAXD]{};
